@@ -7,6 +7,7 @@ import sys
 import time
 
 from . import facts as F
+from . import alpha
 from .cfg import Fn
 
 VERIF = F.VERIF
@@ -116,6 +117,8 @@ class Ctx:
             # a unit with parse errors is only partially analysed
             self.notes.append("unit %s had %d parse errors" % (u, n))
         self.parse_errors.update(fx.parse_errors)
+        # locals renamed on the analysed tree are renamed back to the names the rules were written against (gsa/alpha.py)
+        alpha.normalise(fx, self.root, self.notes)
         self.facts[k] = fx
         return fx
 
